@@ -157,7 +157,7 @@ fn main() {
     let rep = Reporter::from_args("C16");
     rep.rule("all 21 template constructors x every parameter set of the catalogue (boundary-valid values included) x instances x n in {0,1,5,25|40} x seeds; each run observed through the step-observer hook (loop-pass start/end with stack height and population size); distinct_nontrivial = distinct (template, parameters, instance, n, seed, condition kind, evaluator) runs");
     rep.assume("valid parameters are those fixed in harness/src/templates.rs (DESIGN.md C16); harness problems only");
-    let seeds = rep.tier.pick(30usize, 120usize);
+    let seeds = rep.tier.pick(30usize, 6000usize);
     let cases = templates::cases(rep.quick(), rep.seed, seeds);
     let n = cases.len();
     let workers = num_workers();
